@@ -346,3 +346,24 @@ Proof.
   - exact (swap_ranges_elementwise l a b c Hab Hbl Hcl Hd).
 Qed.
 Print Assumptions C11_swap_ranges_swaps.
+
+(* the hypotheses of the history-level theorems are satisfiable: (uint16, FixedSize<Trk<2>>, uint8),
+   fixed size 2, three elements left after a history with pop_back, erase and reserve *)
+Definition c11L : list param :=
+  [ {| pk := Plain; psz := 2; pal := 2; pty := TUInt |};
+    {| pk := Fixed; psz := 2; pal := 1; pty := TTrk |};
+    {| pk := Plain; psz := 1; pal := 1; pty := TU8 |} ].
+Definition c11t (b : Z) : tuple := [[[b; 0]]; [[b; b]; [b + 1; b + 1]]; [[b]]].
+Definition c11H : list sop :=
+  [SEmplace (c11t 1); SEmplace (c11t 2); SPopBack; SEmplace (c11t 3); SReserve 5 0; SEmplace (c11t 4); SEmplace (c11t 5); SErase 3].
+Example C11_history_level_applies :
+  wf_plist c11L = true /\ has_varying c11L = false /\
+  shist_valid c11L (fixed_counts c11L [2]) {| s_cap := 3; s_elems := [] |} c11H /\
+  nt_hist_ok c11L {| s_cap := 3; s_elems := [] |} c11H /\
+  s_elems (srun {| s_cap := 3; s_elems := [] |} c11H) = [c11t 1; c11t 3; c11t 4].
+Proof.
+  split; [reflexivity|]. split; [reflexivity|]. split; [|split].
+  - cbn. repeat split; try lia; try discriminate; repeat constructor.
+  - cbn. unfold nt_ok. cbn. repeat split; try (right; lia); auto.
+  - reflexivity.
+Qed.
